@@ -80,9 +80,22 @@ _KINDS = ("int", "dec", "decp", "frac", "float", "str", "sdec")
 
 
 @st.composite
+def _long_decimal(draw):
+    """30-70 significant digits (more than any default decimal context holds)."""
+    digits = draw(st.integers(30, 70))
+    n = draw(st.integers(10 ** (digits - 1), 10 ** digits - 1))
+    places = draw(st.integers(0, digits + 5))
+    sign = draw(st.sampled_from(["", "-"]))
+    lit = str(n).rjust(places + 1, "0")
+    lit = sign + (lit[:-places] + "." + lit[-places:] if places else lit)
+    return [draw(st.sampled_from(["sdec", "sdec", "str"])), lit]
+
+
+@st.composite
 def gen_num(draw):
     sym = draw(st.sampled_from(SYMS + CURS))
-    amt = gen.pick(draw, (6, gen.encode(gen.fractions(), _KINDS)), (3, gen.floats_enc()),
+    amt = gen.pick(draw, (6, gen.encode(gen.fractions(), _KINDS)), (3, gen.floats_enc()), (2, _long_decimal()),
+                   (1, gen.floats_enc().map(lambda e: ["sdec", format(__import__("decimal").Decimal(float.fromhex(e[1])), "f")])),
                    (1, st.sampled_from([["str", "1e3"], ["str", "-.5"], ["str", "+7."], ["str", "  12"], ["str", "1E-3"],
                                         ["str", "-0"], ["str", "007"], ["str", "3/4"], ["str", "-6/8"],
                                         ["sdec", "1E+3"], ["sdec", "-0.00"], ["float", (-0.0).hex()]])))
